@@ -200,8 +200,14 @@ func TestPropSpoolOutage(t *testing.T) {
 						missing = append(missing, l)
 					}
 				}
-				t.Fatalf("schedule %v: %d lines handed, only %d distinct lines received after the endpoint came back, drop counters slow_conn=%d slow_spool=%d: %d lines lost uncounted (60s after the last recovery; spool depth %d, buffered %d); e.g. %q\noptions %+v",
-					sched, len(handed), len(R), x.SlowConn(), x.SlowSpool(), int64(len(handed))-int64(len(R))-x.SlowConn()-x.SlowSpool(), depth, buf, missing, o)
+				var epd []string
+				for qi, q := range eps {
+					for ii, inc := range q.Incarnations() {
+						epd = append(epd, fmt.Sprintf("endpoint %d conn %d: %d bytes from %s", qi, ii, len(inc.Bytes()), inc.RemoteAddr()))
+					}
+				}
+				t.Fatalf("schedule %v: %d lines handed, only %d distinct lines received after the endpoint came back, drop counters slow_conn=%d slow_spool=%d: %d lines lost uncounted (60s after the last recovery; spool depth %d, buffered %d); e.g. %q\noptions %+v\nendpoints: %v; destination wrote %d lines\n%s",
+					sched, len(handed), len(R), x.SlowConn(), x.SlowSpool(), int64(len(handed))-int64(len(R))-x.SlowConn()-x.SlowSpool(), depth, buf, missing, o, epd, x.Out(), x.Diag(eps[len(eps)-1]))
 			}
 			time.Sleep(2 * time.Millisecond)
 		}
